@@ -918,4 +918,35 @@ theorem decodeParams_enc (ns : List String) (ts : List Ty) (cs : List CV) (pre p
   unfold decodeParams
   rw [this]
 
+/-! ### non-vacuity of the hypotheses -/
+
+
+theorem uint256_ok : ∀ info ∈ Gen.AbiTypeTable.table, info.name = "uint" → ElemOK info "256" 256 := by
+  intro info hmem hn
+  have hall : Gen.AbiTypeTable.table.all (fun i => i.name != "uint" || (decide (codecOf i.dec = .uint) && decide (i.dyn = .never))) = true := by decide
+  have := List.all_eq_true.mp hall info hmem
+  simp [hn] at this
+  exact Or.inr (Or.inl ⟨hn, this.1, this.2, by decide, by decide, by decide⟩)
+
+theorem string_ok : ∀ info ∈ Gen.AbiTypeTable.table, info.name = "string" → ElemOK info "" 0 := by
+  intro info hmem hn
+  have hall : Gen.AbiTypeTable.table.all (fun i => i.name != "string" || (decide (codecOf i.dec = .string) && decide (i.dyn = .always))) = true := by decide
+  have := List.all_eq_true.mp hall info hmem
+  simp [hn] at this
+  exact Or.inr (Or.inr (Or.inr (Or.inr (Or.inr (Or.inr ⟨hn, this.1, this.2, rfl⟩)))))
+
+/-- non-vacuity of `decodeParams_enc` / `decode_enc`: `(uint256 a, string[] b)` with the value `(5, ["ab", ""])`
+    meets every hypothesis -/
+example : ∀ u ∈ Gen.AbiTypeTable.table, u.name = "uint" → ∀ s ∈ Gen.AbiTypeTable.table, s.name = "string" →
+    ValidTys [.elem u "256" 256 0, .darr (.elem s "" 0 0)] ∧
+    Spec.Abi.wellTypedEach [.elem u "256" 256 0, .darr (.elem s "" 0 0)]
+      [.int 5, .kids [.str [0x61, 0x62], .str []]] = true ∧
+    Small (.tuple ["a", "b"] [.elem u "256" 256 0, .darr (.elem s "" 0 0)]) (.kids [.int 5, .kids [.str [0x61, 0x62], .str []]]) := by
+  intro u hu hun s hs hsn
+  refine ⟨⟨uint256_ok u hu hun, string_ok s hs hsn, trivial⟩, ?_, ?_⟩
+  · simp [Spec.Abi.WellTyped, Spec.Abi.wellTypedEach, Spec.Abi.wellTypedSame, hun, hsn]
+  · simp [Small, SmallEach, SmallSame, LayoutSmall, Spec.Abi.encEach, Spec.Abi.encSame, Spec.Abi.enc, Spec.Abi.isDynamic,
+      Spec.Abi.headsLen, tailLen, Spec.Abi.encElem, Spec.Abi.encUint, Spec.Abi.assemble, Spec.Abi.assembleGo, hun, hsn,
+      Spec.Abi.padRight32, zeros, Gen.AbiCodecFacts.maxEmptyElementCount]
+
 end FFS.Props.C03
